@@ -10,6 +10,7 @@
 (*                                       fresh one                         *)
 (*  rt    [m, dir, bytes, got, raised]   real decode of the real encoding  *)
 (*  fp    [b1, b2]                       enc(dec(enc(m))) vs enc(m)        *)
+(*  ctor  [m, got]                       the object built from m carries m  *)
 (* `got', `before', `after', `fresh' are projections of the documented     *)
 (* public fields (harness/pdu_drv.project).                                *)
 (***************************************************************************)
@@ -46,6 +47,8 @@ Eval(ev) ==
     [] ev.op = "rt" ->
          res(raisedC \cup (IF ev.raised = "" /\ CanonAny(ev.got) # CanonAny(ev.m)
                            THEN {IF ev.got.t # ev.m.t THEN "RoundTripClass" ELSE "RoundTrip"} ELSE {}))
+    [] ev.op = "ctor" ->
+         res(IF CanonAny(ev.got) # CanonAny(ev.m) THEN {"Constructor"} ELSE {})
     [] ev.op = "fp" -> res(raisedC \cup (IF ev.raised = "" /\ ev.b1 # ev.b2 THEN {"FixedPoint"} ELSE {}))
 
 Verdict(status, step, clauses, detail) ==
